@@ -148,6 +148,22 @@ def _worker_init(repo, numba_threads):
     from . import env
 
     env.install_quiet()
+    _start_coverage(repo)
+
+
+_COV = None
+
+
+def _start_coverage(repo):
+    """tools/mutscan.py only: record which library lines each check executes (VERIF_COVERAGE = output directory)"""
+    global _COV
+    out = os.environ.get("VERIF_COVERAGE")
+    if not out or _COV is not None:
+        return
+    import coverage
+
+    _COV = coverage.Coverage(data_file=os.path.join(out, f"cov.{os.getpid()}"), include=[os.path.join(os.path.realpath(repo), "tdgl", "*")], config_file=False)
+    _COV.start()
 
 
 def _in_library(tb) -> bool:
@@ -197,6 +213,10 @@ def run_one(cid, case):
         os.chdir(old)
         tempfile.tempdir = old_tmp
         shutil.rmtree(base, ignore_errors=True)
+        if _COV is not None:
+            _COV.stop()
+            _COV.save()
+            _COV.start()
     packed["case"] = case
     packed["wall"] = time.time() - t0
     if packed.get("key") is None:
